@@ -17,7 +17,7 @@ INFO = {
                    "(compile, exec, cse, lambdify, func_builder, do_codegen, do_compile) in the package lies in a function "
                    "that is only reachable through those guarded regions or through a memoising decorator; every cache "
                    "key is built only from operand key tuples; nothing evicts or rebinds the caches.",
-    "decided": ["C10.guard-and-store", "C10.only-through-cache", "C10.key-provenance", "C10.no-eviction"],
+    "decided": ["C10.guard-and-store", "C10.only-through-cache", "C10.key-provenance", "C10.value-blind-operands", "C10.no-eviction"],
     "not_decided": ["nothing structural; costs inside sympy are outside the statement"],
     "assumptions": ["callee resolution is by simple name over the nine modules of the package (no dynamic dispatch reaches a sink)"],
 }
@@ -364,6 +364,35 @@ def eviction_sites(repo):
                     if isinstance(t, ast.Attribute) and t.attr in CACHES:
                         out.append((mname, n, f"rebinding {un(t)}"))
     return out
+
+
+@rule("C10.value-blind-operands", props=["C10", "C16"], min_instances=20, mutants=[
+    ("a plain 0 on the left of + is replaced by the empty multivector", ("multivector", "    __radd__ = __add__ = add", "    __add__ = add\n\n    def __radd__(self, other):\n        if isinstance(other, (int, float)) and other == 0:\n            other = self.fromkeysvalues(self.algebra, keys=(), values=[])\n        return self.algebra.add(other, self)")),
+    ("subtracting a plain 0 returns the multivector itself", ("multivector", "    def sub(self, other):\n        return self.algebra.sub(self, other)", "    def sub(self, other):\n        if isinstance(other, (int, float)) and not other:\n            return self\n        return self.algebra.sub(self, other)")),
+])
+def value_blind_operands(ctx):
+    """The binary operator methods of MultiVector hand a foreign operand to the algebra's operator as it is: which
+    key pattern is looked up (and hence whether code is generated) depends on the KIND of the operand only.  Every
+    binary forwarding method is classified with a multivector operand and with the plain numbers 5, 0, 0.0, -1, 1; it
+    must make the same single operator call with the same operand roles each time."""
+    from ..surface import class_surface
+    repo = ctx.repo
+    for cq in ("multivector.MultiVector",):
+        table = class_surface(repo, cq)
+        anomalies = repo.__dict__.get("_surface_anomalies", {})
+        cls = ctx.cls(cq)
+        seen = set()
+        for name, e in sorted(table.items()):
+            q = f"{cq}.{name}"
+            if q in anomalies:
+                continue
+            if e.kind == "op" and len(e.order) == 2:
+                seen.add(name)
+                ctx.ok(f"{q}#value-blind", e.node, operator=e.op, order=e.order)
+        for q, why in sorted(anomalies.items()):
+            if q.startswith(cq + "."):
+                node = next((st for st in cls.body if isinstance(st, ast.FunctionDef) and st.name == q.split(".")[-1]), None)
+                ctx.violation(f"{q}#value-blind", f"{q.split('.')[-1]}: {why}", node)
 
 
 @rule("C10.no-eviction", props=["C10", "C09"], min_instances=1, mutants=[
